@@ -344,6 +344,12 @@ class C17(Check):
         else:
             alt_model = None
         arg_before = arg.copy()
+        if verify:
+            # warm the receiver up: every geometry / edge / boundary query is asked of the source mesh first, so anything
+            # memoised on it has been filled before the mask is taken (a masked mesh must not inherit it)
+            pre, _ = self._static(mesh, model, where_suffix="/before-mask")
+            if pre:
+                return pre
         before = observe(mesh) if verify else None
         exc = None
         try:
@@ -391,6 +397,11 @@ class C17(Check):
                 fails.extend(f1)
             if res is mesh:
                 fails.append(Failure(where, "result-is-receiver", "the masked mesh is the receiver itself"))
+            if not fails:
+                # ... and the geometry / edge / boundary identities are asked of the masked mesh straight away
+                post, _ = self._static(res, chosen, where_suffix="/after-mask")
+                fails.extend(post)
+                self.note("mask:geometry-of-result-checked")
         else:
             if alt_model is not None and res.n_points == alt_model.n:
                 chosen = alt_model
